@@ -20,6 +20,11 @@ HARNESSES.append(dict(name="tarball_diag", file="tarball_diag.c", label="bounded
                                             "--replace-calls", "create_node_and_repack_data:stub_create_node"],
                       fp={"next": "env_next", "read_link": "env_read_link", "*": "env_never"},
                       must_have=["C13.tarball.diagnostic"]))
-FUNCTIONS = ["process_tarball", "sqfs_meta_write_write_to_file (via harness/C01)", "compressor_get_default"]
+# the stream API every packer / unpacker copies file data with: an error of
+# the source or the sink in the middle of a splice is the call's result, never
+# a short count that the next (error-free) call turns into a clean end
+# (seed C13-8; lib/sqfs/src/io/stream_api.c is anchored in C12 only)
+HARNESSES += _borrow(__file__, "C12", ["api_splice", "api_read", "api_skip"])
+FUNCTIONS = ["process_tarball", "sqfs_istream_splice / read / skip (via harness/C12)", "sqfs_meta_write_write_to_file (via harness/C01)", "compressor_get_default"]
 TRUSTED = []
 ASSUMPTIONS = []
